@@ -127,6 +127,18 @@ def r18_2(ctx: Ctx) -> RuleResult:
         else:
             rr.ok(fn0.loc(), f"{name}: no option of the main parser is declared again")
 
+    # a switch means what its name says: giving it stores True (`--no-unicode-escape` sets no_unicode_escape)
+    setup = mod.functions["setup_parser"]
+    decls = [c for f2 in [setup] + [s2["fn"] for s2 in subs.values()] for c in calls(f2.node, "add_argument")]  # type: ignore[union-attr]
+    for c in decls:
+        act = kw(c, "action")
+        if isinstance(act, ast.Constant) and act.value in ("store_true", "store_false"):
+            d = _dest(c)
+            if act.value == "store_true":
+                rr.ok(mod.relpath, f"switch `{d}`: store_true")
+            else:
+                rr.bad(setup, c, f"the switch `{d}` is declared with action=\"store_false\": giving the option stores False, so every handler that "
+                       f"reads `args.{d}` gets the opposite of what the option name says", construct=f"switch {d}: store_false")
     for name, s in sorted(subs.items()):
         handler: FuncInfo = s["handler"]  # type: ignore[assignment]
         dests: Dict[str, ast.Call] = s["dests"]  # type: ignore[assignment]
@@ -343,4 +355,38 @@ def r18_5(ctx: Ctx) -> RuleResult:
     return rr
 
 
-RULES = [r18_1, r18_2, r18_3, r18_4, r18_5]
+def r18_6(ctx: Ctx) -> RuleResult:
+    """An expression given in a file is the text of the file: a handler that takes it from an option of type file reads
+    the whole file (`.read()`), it does not take its first line or iterate over it."""
+    rr = RuleResult("R18.6", "an expression file is read as a whole", floor=2)
+    mod, gd, subs = cli_model(ctx)
+    n = 0
+    for name, s_ in sorted(subs.items()):
+        handler: FuncInfo = s_["handler"]  # type: ignore[assignment]
+        dests: Dict[str, ast.Call] = s_["dests"]  # type: ignore[assignment]
+        argsp = handler.node.args.args[0].arg
+        files = {d for d, c in dests.items() if isinstance(kw(c, "type"), ast.Call) and callee_name(kw(c, "type")) == "FileType"}  # type: ignore[arg-type]
+        for c in calls(handler.node):
+            if not (isinstance(c.func, ast.Attribute) and isinstance(c.func.value, ast.Attribute) and path_of(c.func.value.value) == argsp):
+                continue
+            opt = c.func.value.attr
+            if opt not in files or opt in ("file", "output"):
+                continue  # the target document and the output are handed to json / the library as they are
+            n += 1
+            if c.func.attr == "read" and not c.args:
+                rr.ok(handler.loc(c), f"{handler.name}: args.{opt}.read()")
+            else:
+                rr.bad(handler, c, f"`{short(c)}` takes only part of the file given with the option `{opt}`: an expression that is preceded by a blank "
+                       "line or written over several lines is cut (an empty query then selects the whole document, exit status 0)",
+                       construct=f"{handler.name}: args.{opt}.{c.func.attr}()")
+        # next(args.x) / iteration over the file object
+        for c in calls(handler.node, "next"):
+            if c.args and isinstance(c.args[0], ast.Attribute) and path_of(c.args[0].value) == argsp and c.args[0].attr in files:
+                n += 1
+                rr.bad(handler, c, f"`{short(c)}` takes the first line of the file only", construct=f"{handler.name}: next(args.{c.args[0].attr})")
+    if n == 0:
+        raise AnalysisError("R18.6: no handler reads an expression from a file option")
+    return rr
+
+
+RULES = [r18_1, r18_2, r18_3, r18_4, r18_5, r18_6]
